@@ -110,8 +110,9 @@ class AAssociatePDUBase(object):
         :return: encoded PDU
         :rtype: bytes
         """
-        called_ae_title = self.called_ae_title.encode()
-        calling_ae_title = self.calling_ae_title.encode()
+        # AE titles are 16 characters long, padded with trailing spaces (PS3.8 9.3.2, PS3.5 AE)
+        called_ae_title = self.called_ae_title.encode().ljust(16, b' ')
+        calling_ae_title = self.calling_ae_title.encode().ljust(16, b' ')
         return self.header.pack(self.pdu_type, self.reserved1, self.pdu_length,
                                 self.protocol_version, self.reserved2,
                                 called_ae_title, calling_ae_title,
@@ -145,8 +146,8 @@ class AAssociatePDUBase(object):
         _, reserved1, _, protocol_version, reserved2, \
             called_ae_title, calling_ae_title = values[:7]
         reserved3 = values[7:]
-        called_ae_title = called_ae_title.strip(b'\0').decode()
-        calling_ae_title = calling_ae_title.strip(b'\0').decode()
+        called_ae_title = called_ae_title.strip(b' \0').decode()
+        calling_ae_title = calling_ae_title.strip(b' \0').decode()
         variable_items = list(iter_items())
         return cls(called_ae_title=called_ae_title,
                    calling_ae_title=calling_ae_title,
